@@ -91,9 +91,14 @@ func runC04(tb ev.TB, p sim.Prog) ev.Result {
 		if pc < 1 {
 			pc = 1
 		}
-		bound := bits.Len(uint(pc)) - 1 + 2 // floor(log2(pc)) + 2
+		// logarithmic in the requested pointer count: one reference per power of two up to pc, minus the
+		// newest entry (always a predecessor), plus the "last known" entry when the log is shorter than pc
+		bound := bits.Len(uint(pc)) - 1 // floor(log2(pc))
+		if len(before) < pc {
+			bound++
+		}
 		if len(in.Refs) > bound {
-			tb.Fatalf("append #%d: %d references for pointer count %d (bound %d)", info.Index, len(in.Refs), pc, bound)
+			tb.Fatalf("append #%d: %d references for pointer count %d on a log of %d entries with %d heads (bound %d)", info.Index, len(in.Refs), pc, len(before), len(wantNext), bound)
 		}
 		if (len(writers) >= 2 && maxRemote) || (pc > 1 && w.Reg.HasFork(before)) {
 			nt = true
